@@ -32,12 +32,12 @@ Act(e) ==
       [] e.ev = "SetupWithKey"   -> SetupWithKey(e.id, e.tape, Dec(e.key), e.mode, e.extfail)
       [] e.ev = "SetupFromParts" -> SetupFromParts(e.id, Dec(e.parts[1]), Dec(e.parts[2]),
                                                    Dec(e.parts[3]), e.mode, e.extfail)
-      [] e.ev = "CRegStart"      -> CRegStart(e.id, Dec(e.pw), e.tape)
+      [] e.ev = "CRegStart"      -> CRegStart(e.id, Dec(e.pw), e.tape, e.res # "Ok")
       [] e.ev = "SRegStart"      -> SRegStart(e.id, Dec(e.req), Dec(e.cid))
       [] e.ev = "CRegFinish"     -> CRegFinish(e.id, Dec(e.pw), Dec(e.msg[1]), Dec(e.msg[2]),
                                                Dec(e.idu), Dec(e.ids), e.ksf, e.ksffail, e.tape)
       [] e.ev = "SRegFinish"     -> SRegFinish(e.id, MsgRec(e.msg))
-      [] e.ev = "CLogStart"      -> CLogStart(e.id, Dec(e.pw), e.tape)
+      [] e.ev = "CLogStart"      -> CLogStart(e.id, Dec(e.pw), e.tape, e.res # "Ok")
       [] e.ev = "SLogStart"      -> SLogStart(e.id, e.s,
                                               IF Len(e.rec) = 0 THEN NoRec ELSE MsgRec(e.rec),
                                               MsgReq(e.msg), Dec(e.cid), Dec(e.ctx), Dec(e.idu),
